@@ -558,6 +558,40 @@ func mulIndexOffset(off ssa.Value) (*ssa.BasicBlock, int64, int64, bool) {
 }
 
 // chunkProven: idiom B. off = i*K with i ranging over make([]T, len(b)/K); need <= K.
+// equalByGuard lists the values that a dominating equality test (the equal edge of `a == b` / `a != b`)
+// makes equal to v in block at, v itself first.
+func equalByGuard(f *ssa.Function, v ssa.Value, at *ssa.BasicBlock) []ssa.Value {
+	out := []ssa.Value{v}
+	cv := canonConv(v)
+	for _, b := range f.Blocks {
+		if len(b.Instrs) == 0 {
+			continue
+		}
+		ifi, ok := b.Instrs[len(b.Instrs)-1].(*ssa.If)
+		if !ok {
+			continue
+		}
+		bo, ok := ifi.Cond.(*ssa.BinOp)
+		if !ok || (bo.Op != token.EQL && bo.Op != token.NEQ) {
+			continue
+		}
+		eq := 0
+		if bo.Op == token.NEQ {
+			eq = 1
+		}
+		if !edgeDominates(b, eq, at) {
+			continue
+		}
+		switch {
+		case sameValue(canonConv(bo.X), cv):
+			out = append(out, bo.Y)
+		case sameValue(canonConv(bo.Y), cv):
+			out = append(out, bo.X)
+		}
+	}
+	return out
+}
+
 func chunkProven(f *ssa.Function, data, off ssa.Value, need int64, at *ssa.BasicBlock) (bool, string) {
 	m, ok := canonConv(off).(*ssa.BinOp)
 	if !ok || m.Op != token.MUL {
@@ -576,14 +610,17 @@ func chunkProven(f *ssa.Function, data, off ssa.Value, need int64, at *ssa.Basic
 		if !ok {
 			continue
 		}
-		q, ok := canonConv(n).(*ssa.BinOp)
-		if !ok || q.Op != token.QUO {
-			continue
-		}
-		k2, ok := cInt((q.Y))
-		lx, isLen := isLenOf(q.X)
-		if ok && isLen && k2 == K && sameValue(lx, data) {
-			return true, fmt.Sprintf("chunked read: i < len(data)/%d, read of %d at i*%d", K, need, K)
+		// the loop count itself, or a count that a dominating check made equal to it
+		for _, n2 := range equalByGuard(f, n, at) {
+			q, ok := canonConv(n2).(*ssa.BinOp)
+			if !ok || q.Op != token.QUO {
+				continue
+			}
+			k2, ok := cInt((q.Y))
+			lx, isLen := isLenOf(q.X)
+			if ok && isLen && k2 == K && sameValue(lx, data) {
+				return true, fmt.Sprintf("chunked read: i < len(data)/%d, read of %d at i*%d", K, need, K)
+			}
 		}
 	}
 	return false, ""
@@ -705,6 +742,22 @@ func ruleP3(p *Prog, r *Report) {
 							if a2, ok := isLenOf(mk.Len); ok && sameValue(a2, a) {
 								r.Ok(R, cons, p.InstrPos(in), "index ranges over a slice of the same length as the one this slice was made with")
 								return
+							}
+						}
+						// both made with counts that a dominating check made equal
+						if m1, ok := makeLenOf(a); ok {
+							if m2, ok := makeLenOf(xs); ok {
+								eqv := false
+								for _, e := range equalByGuard(f, m1, in.Block()) {
+									if sameValue(canonConv(e), canonConv(m2)) {
+										eqv = true
+									}
+								}
+								if eqv {
+									nGuards++
+									r.Ok(R, cons, p.InstrPos(in), "index ranges over a slice whose length was checked equal to the length of this one")
+									return
+								}
 							}
 						}
 						// a = make([]T, m) and a dominating guard says m == len(xs)
